@@ -102,6 +102,22 @@ CHECKS["C02"] = dict(
   text="Static: for every operation of every generated package the number of distinct concrete types implementing its response interface equals the number of response identities the spec documents for it (inline per status, component responses through alias chains, a shared component counted once) - nothing else satisfies the interface. Dynamic: every seeded response value returned by a handler is written with a documented status (the caller's code for default), the documented Content-Type, exactly the declared header names with required ones present, and a body valid for the declared schema.",
   note=WIRE_NOTE + " Response identity by behaviour and type identity; header values and bodies are compared for equality by C10.")
 
+CHECKS["C14"] = dict(
+  level="exploration", design="§4 C14, §12, spec/Pipeline.tla (no Panic action, SingleWrite), spec/MC_Pipeline.tla, spec/Trace_Answer.tla",
+  technique="structured near-miss mutation of valid requests plus seeded byte-level random requests against compiled generated packages; recover() around ServeHTTP and Parse(), counting ResponseWriter; NoPanic / SingleWrite judged by TLC (Trace_Answer); step model of ServeHTTP checked by TLC (MC_Pipeline: NoPanic, SingleWrite)",
+  text="For every pre-flighted operation of the wire universe (typed path / query / header parameters, JSON, raw and component request bodies, security on every fifth, rotating base-path forms) a valid request is mutated structurally: every truncation of the path, doubled / missing slashes, base-path near misses, empty path, '*', a 6000-character path, odd methods, empty / duplicated / malformed / huge query strings and headers, twelve classes of broken JSON bodies; plus 50 000 (thorough 750 000) seeded random requests near the declared shapes incl. a kitchen-sink spec with security, CORS and spec file; every handler calls Parse(). Absence of panics is observed on explored inputs, not proven (exploration).",
+  note="Requests are http.Request values served in-process (arbitrary URL.Path, RawQuery, headers, body). Go's coverage-guided fuzzer is not used in this build; the random part is seeded generation. The driver summarises random batches (counts + first offenders), structured cases are judged one by one.")
+CHECKS["C18"] = dict(
+  level="model_checking", design="§4 C18, spec/Refs.tla, spec/MC_Refs.tla, spec/Trace_Refs.tla",
+  technique="TLA+ rewrite model (category of reference sites -> keep / inline / hoist) enumerated by TLC (MC_Refs); original and rewritten specs generated, compiled and driven with the same client calls and raw requests; paired observations judged by TLC (Trace_Refs: WireEquiv, RawEquiv, build outcome)",
+  text="Packs of wire operations whose schemas, parameters, request bodies, responses and headers are partly inline and partly $ref / alias are rewritten inline-all, hoist-all, hoist-props and by seeded variants out of the 243 TLC enumerates; each pair of packages gets identical seeds for client calls and identical raw near-miss requests; TLC requires equal build outcome, equal wire request, equal parse outcome (value or named error), equal written response and equal returned value (values compared after merging embedded allOf members).",
+  note="A wire pair is compared when both clients were given equal request values. oneOf variants stay references. Three open findings (hoisted non-object property schemas, array headers in components.headers, component request bodies with inline object schema) carry TLA+ selectors; one defect (component request body dropping JSON methods) was repaired.")
+CHECKS["C20"] = dict(
+  level="model_checking", design="§4 C20, spec/Concurrent.tla, spec/Trace_Concurrent.tla",
+  technique="TLA+ model of N interleaved request machines checked by TLC over all interleavings of 4 requests (Isolated, SharedReadOnly); the linearized event log of 16-64 goroutines driving one API and one Client validated by TLC (Trace_Concurrent) as a behaviour of that model; Go race detector on the same executions",
+  text="Rounds of 16-64 goroutines x 4 calls (GOMAXPROCS 1/4/16, yields in every call-back) go through one generated Client into one generated API (packed wire operations: parameters, JSON and raw bodies, 2 middlewares); every leaf of every request and response is unique to its call; events are appended under one mutex with a global sequence number. TLC checks that every event is a step of its own request's machine, that the template visible to middlewares and handler is the request's own, parsed = sent and returned = responded per request. The binaries are built with -race; any report is a violation.",
+  note="Goroutine schedules are sampled, not enumerated; the model enumerates the interleavings of 4 abstract requests. 'No unsynchronised access' is decided by the race detector, outside TLA+.")
+
 NOT_YET = {}
 
 def main():
